@@ -22,7 +22,7 @@ template<multi::dimensionality_type D> using AI = multi::array<int, D>;
       noinline=[r'^_ZSt20uninitialized_copy_n', r'^_ZSt6copy_n', r'^_ZSt20uninitialized_fill_n', r'subarray<double, \dl.*::operator=<double, double\*', r'^_ZNSt7__cxx11'])
 
 def ARR(D, T='double'): return r're:boost::multi::array<%s,%d(,std::allocator<%s>)?>' % (T, D, T)
-def EIc(D): return 're:boost::multi::elements_iterator_t<(const)?double\\*,boost::multi::layout_t<%d>>' % D
+def EIc(D): return 're:boost::multi::elements_iterator_t<constdouble\\*,boost::multi::layout_t<%d>>' % D
 
 def prod(ns):
     e = ns[-1]
